@@ -175,6 +175,7 @@ pub fn package(name: &str, files: &[FFile], archive: Vec<u8>, compressor: Option
         sig: vec![],
         main,
         payload: archive,
+        order: (0, 0),
     };
     let (x, _) = with_digests(&p, &DigestPlan { md5: D::Correct, sha1: D::Correct, sha256: D::Correct, payload: D::Correct, algo: 8 });
     split(&x).expect("foreign package splits")
